@@ -132,6 +132,14 @@ func filterEdges(f *ssa.Function, isFilter func(ssa.Value) bool) (edges []ssax.E
 				}
 				edges = append(edges, ssax.Edge{From: b, Succ: in})
 				found = true
+			} else if g == nil && admissionPredicate(f, x.Call.Value) {
+				// a predicate chosen once: "always" without a filter, filter.Contains with one
+				in := 0
+				if neg {
+					in = 1
+				}
+				edges = append(edges, ssax.Edge{From: b, Succ: in})
+				found = true
 			}
 		}
 	}
@@ -179,6 +187,152 @@ func productSign(v ssa.Value, depth int) (neg bool, factors []ssa.Value, ok bool
 	return false, []ssa.Value{v}, true
 }
 
+// productSignDeep: productSign, with factors that are captured variables assigned once in the
+// enclosing function replaced by what was assigned (a scale computed once before the scan).
+func productSignDeep(v ssa.Value) (neg bool, factors []ssa.Value, ok bool) {
+	neg, factors, ok = productSign(v, 0)
+	if !ok {
+		return
+	}
+	for round := 0; round < 3; round++ {
+		changed := false
+		var out []ssa.Value
+		for _, fv := range factors {
+			if u, isU := fv.(*ssa.UnOp); isU && u.Op == token.MUL {
+				if free, isFree := u.X.(*ssa.FreeVar); isFree {
+					if src := ssax.CapturedSingleStore(free); src != nil {
+						n2, f2, ok2 := productSign(src, 0)
+						if ok2 {
+							neg = neg != n2
+							out = append(out, f2...)
+							changed = true
+							continue
+						}
+					}
+				}
+			}
+			out = append(out, fv)
+		}
+		factors = out
+		if !changed {
+			break
+		}
+	}
+	return
+}
+
+// admissionPredicate: fv is a function value called in f (a scan callback) to decide whether a
+// point is considered. It is a variable of the enclosing function that holds a literal returning
+// true unless a filter was given, in which case it holds that filter's Contains: the assignment
+// of Contains sits in the successor of a "filter != nil" test and comes after the default.
+func admissionPredicate(f *ssa.Function, fv ssa.Value) bool {
+	ld, ok := fv.(*ssa.UnOp)
+	if !ok || ld.Op != token.MUL {
+		return false
+	}
+	free, ok := ld.X.(*ssa.FreeVar)
+	if !ok || f.Parent() == nil {
+		return false
+	}
+	p := f.Parent()
+	var cell *ssa.Alloc
+	for i, q := range f.FreeVars {
+		if q != free {
+			continue
+		}
+		for _, b := range p.Blocks {
+			for _, in := range b.Instrs {
+				if mc, ok := in.(*ssa.MakeClosure); ok && mc.Fn == ssa.Value(f) && i < len(mc.Bindings) {
+					cell, _ = mc.Bindings[i].(*ssa.Alloc)
+				}
+			}
+		}
+	}
+	if cell == nil {
+		return false
+	}
+	isFilter := isParamOrCapture(p, "roaring64.Bitmap")
+	var always, contains *ssa.Store
+	for _, r := range *cell.Referrers() {
+		st, ok := r.(*ssa.Store)
+		if !ok || st.Addr != ssa.Value(cell) {
+			continue
+		}
+		var fn *ssa.Function
+		mc := &ssa.MakeClosure{}
+		switch x := st.Val.(type) {
+		case *ssa.MakeClosure:
+			mc, fn = x, x.Fn.(*ssa.Function)
+		case *ssa.Function:
+			fn = x
+		default:
+			return false
+		}
+		switch {
+		case len(mc.Bindings) == 1 && strings.HasPrefix(fn.Name(), "Contains") && isFilter(mc.Bindings[0]):
+			if contains != nil {
+				return false
+			}
+			contains = st
+		case len(mc.Bindings) == 0 && returnsConstTrue(fn):
+			if always != nil {
+				return false
+			}
+			always = st
+		default:
+			return false
+		}
+	}
+	if always == nil || contains == nil {
+		return false
+	}
+	// Contains is installed exactly when the filter is not nil
+	cb := contains.Block()
+	if len(cb.Preds) != 1 {
+		return false
+	}
+	pred := cb.Preds[0]
+	ifi, ok := pred.Instrs[len(pred.Instrs)-1].(*ssa.If)
+	if !ok {
+		return false
+	}
+	bo, ok := ifi.Cond.(*ssa.BinOp)
+	if !ok || !((isFilter(bo.X) && ssax.IsNilConst(bo.Y)) || (isFilter(bo.Y) && ssax.IsNilConst(bo.X))) {
+		return false
+	}
+	nonNil := 0
+	if bo.Op == token.EQL {
+		nonNil = 1
+	} else if bo.Op != token.NEQ {
+		return false
+	}
+	if pred.Succs[nonNil] != cb {
+		return false
+	}
+	// the default does not come after it
+	if always.Block() == cb || ssax.Reaches(cb, always.Block()) && always.Block() != pred && !always.Block().Dominates(pred) {
+		return false
+	}
+	return true
+}
+
+func returnsConstTrue(fn *ssa.Function) bool {
+	n := 0
+	for _, b := range fn.Blocks {
+		if ret, ok := b.Instrs[len(b.Instrs)-1].(*ssa.Return); ok {
+			if len(ret.Results) != 1 {
+				return false
+			}
+			v, isC := ssax.ConstBool(ret.Results[0])
+			if !isC || !v {
+				return false
+			}
+			n++
+		}
+	}
+	return n > 0
+}
+
 // hybridStores: values stored into the HybridScore field of a SearchResult being built.
 func hybridStores(f *ssa.Function) []*ssa.Store {
 	var out []*ssa.Store
@@ -207,7 +361,7 @@ func checkScore(w *load.World, c *core.Collector, f *ssa.Function, key string, w
 		return
 	}
 	for _, st := range sts {
-		neg, factors, ok := productSign(st.Val, 0)
+		neg, factors, ok := productSignDeep(st.Val)
 		hasW, hasQ := false, false
 		for _, fv := range factors {
 			o := ssax.Prov(fv)
@@ -1232,7 +1386,30 @@ func comparatorDescending(sortCall *ssa.Call, field string) (desc bool, ok bool)
 		if !isRet {
 			continue
 		}
-		call, isCall := ret.Results[0].(*ssa.Call)
+		// the result may be the negation of the comparison (-cmp.Compare(a, b) orders like cmp.Compare(b, a))
+		rv, flip := ret.Results[0], false
+		for i := 0; i < 3; i++ {
+			if u, isU := rv.(*ssa.UnOp); isU && u.Op == token.SUB {
+				rv, flip = u.X, !flip
+				continue
+			}
+			if bo, isB := rv.(*ssa.BinOp); isB {
+				if k, isK := bo.X.(*ssa.Const); isK && bo.Op == token.SUB && k.Value != nil && constant.Sign(k.Value) == 0 {
+					rv, flip = bo.Y, !flip
+					continue
+				}
+				if k, isK := bo.Y.(*ssa.Const); isK && bo.Op == token.MUL && k.Value != nil && constant.Sign(k.Value) < 0 {
+					rv, flip = bo.X, !flip
+					continue
+				}
+				if k, isK := bo.X.(*ssa.Const); isK && bo.Op == token.MUL && k.Value != nil && constant.Sign(k.Value) < 0 {
+					rv, flip = bo.Y, !flip
+					continue
+				}
+			}
+			break
+		}
+		call, isCall := rv.(*ssa.Call)
 		if !isCall || call.Call.StaticCallee() == nil || !strings.HasPrefix(call.Call.StaticCallee().String(), "cmp.Compare") {
 			return false, false
 		}
@@ -1243,9 +1420,9 @@ func comparatorDescending(sortCall *ssa.Call, field string) (desc bool, ok bool)
 		a, bb := "param:"+cmpFn.Params[0].Name(), "param:"+cmpFn.Params[1].Name()
 		switch {
 		case o0[bb] && !o0[a] && o1[a] && !o1[bb]:
-			return true, true
+			return !flip, true
 		case o0[a] && !o0[bb] && o1[bb] && !o1[a]:
-			return false, true
+			return flip, true
 		}
 		return false, false
 	}
